@@ -43,6 +43,10 @@ type scheme struct {
 	// expect refines the default (changed => reject). orig/mut are the roots (addressable).
 	expect func(s site, kind string, orig, mut reflect.Value) (expectation, string)
 	env    *mutEnv
+	// per-instance accounting: a rejected forgery whose class label is in tagLabels is also counted
+	// under label@tag (tag = curve), so that the driver can demand it for every curve
+	tag       string
+	tagLabels map[string]bool
 }
 
 // tamperAll mutates every site of the honest proof a (pointer) in every way and checks the verdicts.
@@ -106,6 +110,8 @@ func (sc *scheme) tamperAll(t *rapid.T, a, b reflect.Value, stmt string, maxSite
 					t.Fatalf("%s: verifier panicked on a well-formed (same shape) proof: site %s mutation %s -> %s: %v", sc.test, s.path, kind, desc, o.panicked)
 				}
 				rep.Case(sc.test, key, true, sc.name, label, "forged", "rejected_by_panic(len)")
+			case sc.tagLabels[label]:
+				rep.Case(sc.test, key, true, sc.name, label, label+"@"+sc.tag, "forged", "rejected")
 			default:
 				rep.Case(sc.test, key, true, sc.name, label, "forged", "rejected")
 			}
@@ -532,7 +538,7 @@ func propPermutation(t *rapid.T, c *curve) {
 				if o.panicked != nil {
 					t.Fatalf("%s: verifier panicked: %v", test, o.panicked)
 				}
-				rep.Case(test, fs+" z=0", true, "permutation", "false_stmt|zero_accumulator_consistent_openings", "forged", "rejected")
+				rep.Case(test, fs+" z=0", true, "permutation", "false_stmt|zero_accumulator_consistent_openings", "zero_accumulator@"+c.name, "forged", "rejected")
 			} else {
 				rep.Case(test, fs+" z=0", false, "permutation", "transcript_model_unavailable")
 			}
@@ -557,7 +563,7 @@ func propPermutation(t *rapid.T, c *curve) {
 			if o.panicked != nil {
 				t.Fatalf("%s: verifier panicked: %v", test, o.panicked)
 			}
-			rep.Case(test, ds, true, "permutation", "forgery:degenerate_generator", fmt.Sprintf("forgery:degenerate_generator|order=%s", map[bool]string{true: "1", false: map[bool]string{true: "2", false: "n/2"}[m == 2]}[m == 1]), "forged", "rejected")
+			rep.Case(test, ds, true, "permutation", "forgery:degenerate_generator", "forgery:degenerate_generator@"+c.name, fmt.Sprintf("forgery:degenerate_generator|order=%s", map[bool]string{true: "1", false: map[bool]string{true: "2", false: "n/2"}[m == 2]}[m == 1]), "forged", "rejected")
 		} else {
 			rep.Case(test, ds, false, "permutation", "forgery:degenerate_generator|construction_unavailable")
 		}
